@@ -17,7 +17,7 @@ mkdir -p /tmp/csd-$TAG/clean-tree
 git -C /repo archive HEAD include | tar -x -C /tmp/csd-$TAG/clean-tree   # pristine headers (the /repo working tree may carry a seed under test)
 CLEAN=/tmp/csd-$TAG/clean-tree/include
 build_demo() { # inc flags out
-  g++ -std=${CXXSTD:-c++14} -O1 -I$1 $2 $D/demo.cpp -o $3 -pthread 2>&1 | tail -3
+  (cd $D && g++ -std=${CXXSTD:-c++14} -O1 -I$1 $2 demo.cpp -o $3 -pthread 2>&1 | tail -3)   # from its own directory: some demos match __FILE__ in report texts
 }
 verdict=""
 for FL in "" "-fsanitize=address" "-fsanitize=thread"; do
